@@ -144,6 +144,16 @@ where
         let mut rng = Rng::new(args.seed, stream.wrapping_mul(0x1_0000_0001).wrapping_add(idx));
         let r = monlib::guarded(|| case(idx, &mut rng, &mut rep));
         if let Err(msg) = r {
+            let at = monlib::last_panic_at();
+            if at.starts_with("/repo/") {
+                // The panic was raised by the library's own source (an assertion, an index, an
+                // unwrap) during a call the monitor did not wrap - constructors, clones, queries.
+                // The monitors only make documented-legal calls, so this is the library's failure.
+                rep.eval(format!("unguarded-call-panic/{}", idx));
+                rep.violation(format!("{}/library-panic-outside-guard", property_of(args)), format!("case {}: the library panicked at {} in a call the monitor makes unguarded (constructor / clone / query): {}", idx, at, msg), args.replay_args(idx, crate::plat::P::Native));
+                k += threads;
+                continue;
+            }
             rep.count("harness_panics", 1);
             rep.inconclusive.push(format!("harness panic in case {}: {}", idx, msg));
         }
@@ -157,5 +167,24 @@ pub fn emit(args: &Args, monitor: &str, rule: &str, rep: &Report) {
     match &args.out {
         Some(p) => std::fs::write(p, j).expect("write report"),
         None => println!("{}", j),
+    }
+}
+
+/// Property a monitor's verdicts are filed under.
+pub fn property_of(args: &Args) -> String {
+    let m = args.monitor.as_str();
+    match m {
+        "kern" => "C05".into(),
+        "probes" => "C07".into(),
+        "xt" => "XT".into(),
+        "huge" => match args.get("what").unwrap_or("oneshot") {
+            "hasher" => "C02".into(),
+            "rayon" => "C08".into(),
+            "file" => "C11".into(),
+            "refimpl" => "C15".into(),
+            _ => "C01".into(),
+        },
+        _ if m.len() == 3 && m.starts_with('c') => m.to_uppercase(),
+        _ => "C00".into(),
     }
 }
